@@ -48,7 +48,8 @@ Record devs := mkDevs {
   dv_errlevel : bool;      (* error(msg, k>=2) reports level k-1 *)
   dv_localfunc : bool;     (* local f = function ... f ... end sees itself *)
   dv_wrap_noprefix : bool; (* errors through coroutine.wrap are not re-positioned *)
-  dv_spare1 : bool; dv_spare2 : bool }.
+  dv_fault_string : bool;  (* kind of the injected fault: false = the number -777 raised as is, true = a positioned string *)
+  dv_emit_fault : Z        (* k > 0: the k-th call of the host function emit raises (fault injection); 0 = never *) }.
 
 Record state := mkState {
   cells : list value; tabs : list tab; clos : list clo; cos : list costatus;
